@@ -115,6 +115,8 @@ Inv_WF == RootOK(S, D) /\ EdgesWF(D) /\ IndexExact(D) /\ NodesArePercolatedTraps
 Inv_PartialFaithful == PartialFaithfulS(S, D, plain)
 Inv_DepthExact == DepthExact(D)
 Inv_CacheFresh == CacheFresh(S, D)
+\* C14, second sentence, on every step of the machine (action property)
+CacheDiscardStep == [][CacheDiscarded(D, D')]_D
 \* C04: in histories of plain calls nothing is ever "other"
 Inv_PlainOnly == OnlyPlain => \A n \in Ids(D) : D.nodes[n].how # "other" /\ ~D.nodes[n].skipped
 
